@@ -825,6 +825,17 @@ impl TransactionBuilder {
             ));
         }
         let col_input_value: Value = collateral.total_value()?;
+        if let Some(return_assets) = &collateral_return.amount.multiasset {
+            let input_assets = col_input_value.multiasset.clone().unwrap_or(MultiAsset::new());
+            match return_assets.partial_cmp(&input_assets) {
+                Some(std::cmp::Ordering::Less) | Some(std::cmp::Ordering::Equal) => {}
+                _ => {
+                    return Err(JsError::from_str(
+                        "Collateral return cannot contain assets that are missing in the collateral inputs",
+                    ))
+                }
+            }
+        }
         let total_col: Value = col_input_value.checked_sub(&collateral_return.amount())?;
         if total_col.multiasset.is_some() {
             return Err(JsError::from_str(
